@@ -1,5 +1,527 @@
-import LunarVerif.Spec.C03
-import LunarVerif.Proofs.UrlTree
+import LunarVerif.Proofs.C03Build
+/-! Assembly for C03: closed form of `getFlow`, the per-flow qualification against the flow's own filter,
+and the characterisation of the selection under `Benign`. -/
 namespace LunarVerif.C03
 open LunarVerif.UrlTree LunarVerif.UrlMatch
+
+theorem classify_benign (cfg : List Flow) (t : Txn) : classify cfg t = "-" ↔ Benign cfg t = true := by
+  unfold classify Benign benignCfg benignTxn
+  cases mixedShapes cfg <;> cases oneExtra cfg t.parts <;> cases zeroSegWild cfg t.parts <;>
+    cases mergeConfused cfg <;> cases cfgBoundaryMix cfg <;> cases boundaryMix cfg t.parts <;>
+    cases emptySegment t.parts <;> cases nonCanonical cfg <;> cases sysDefaultMethods cfg t <;>
+    cases valuelessQuery cfg t <;> simp
+
+/-! ### closed form of `GetFlow` (unconditional) -/
+
+def FlowResult.Good (x : FlowResult) : Prop := x.valid = !x.flow.isEmpty
+
+theorem FlowResult.extend_good {f o : FlowResult} (hf : f.Good) (ho : o.Good) :
+    (f.extend o).flow = f.flow ++ o.flow ∧ (f.extend o).Good := by
+  unfold FlowResult.Good at *
+  unfold FlowResult.extend
+  cases hov : o.valid with
+  | false =>
+    rw [hov] at ho
+    have : o.flow = [] := by simpa using ho.symm
+    simp [this, hf]
+  | true =>
+    rw [hov] at ho
+    cases hfv : f.valid with
+    | false =>
+      rw [hfv] at hf
+      have : f.flow = [] := by simpa using hf.symm
+      simp [this]
+      simpa using ho
+    | true =>
+      simp
+      intro _
+      simpa using ho
+
+theorem pick_good (n : FNode) (fl : List Flow) (t : Txn) : (pick n fl t).Good := by
+  simp [pick, FlowResult.Good]
+
+def FilterResult.Good (r : FilterResult) : Prop := r.user.Good ∧ r.sysStart.Good ∧ r.sysEnd.Good
+
+def FilterResult.get (r : FilterResult) : Kind → FlowResult
+  | .user => r.user
+  | .sysStart => r.sysStart
+  | .sysEnd => r.sysEnd
+
+theorem FilterResult.good_get {r : FilterResult} (h : r.Good) (k : Kind) : (r.get k).Good := by
+  cases k
+  · exact h.1
+  · exact h.2.1
+  · exact h.2.2
+
+/-- what one node contributes to group `k` -/
+def nodeSel (n : FNode) (t : Txn) (k : Kind) : List Flow := (n.group k).filter fun f => flowValid n f t
+
+theorem getFlow_node_some {n : FNode} {t : Txn} {r : FilterResult} (h : n.getFlow t = some r) :
+    r.Good ∧ ∀ k, (r.get k).flow = nodeSel n t k := by
+  unfold FNode.getFlow at h
+  simp only at h
+  split at h
+  · simp at h
+  · simp only [Option.some.injEq] at h
+    subst h
+    refine ⟨⟨pick_good _ _ _, pick_good _ _ _, pick_good _ _ _⟩, ?_⟩
+    intro k
+    cases k <;> rfl
+
+theorem getFlow_node_none {n : FNode} {t : Txn} (h : n.getFlow t = none) : ∀ k, nodeSel n t k = [] := by
+  unfold FNode.getFlow at h
+  simp only at h
+  split at h
+  · rename_i he
+    simp only [FilterResult.isEmpty, pick, Bool.and_eq_true, Bool.not_eq_true', Bool.not_eq_false'] at he
+    intro k
+    cases k
+    · simpa [nodeSel, FNode.group] using he.1.1
+    · simpa [nodeSel, FNode.group] using he.1.2
+    · simpa [nodeSel, FNode.group] using he.2
+  · simp at h
+
+theorem getFlow_node_isSome (n : FNode) (t : Txn) :
+    (n.getFlow t).isSome =
+      [Kind.user, Kind.sysStart, Kind.sysEnd].any (fun k => !(nodeSel n t k).isEmpty) := by
+  rcases ha : (n.userFlows.filter fun f => flowValid n f t) with _ | ⟨a, as⟩ <;>
+  rcases hb : (n.systemFlowStart.filter fun f => flowValid n f t) with _ | ⟨b, bs⟩ <;>
+  rcases hc : (n.systemFlowEnd.filter fun f => flowValid n f t) with _ | ⟨c, cs⟩ <;>
+  simp [FNode.getFlow, FilterResult.isEmpty, pick, nodeSel, FNode.group, ha, hb, hc]
+
+theorem extend_get (f o : FilterResult) (k : Kind) : (f.extend o).get k = (f.get k).extend (o.get k) := by
+  cases k <;> rfl
+
+theorem collect_spec (store : List FNode) (t : Txn) (vals : List Nat) : ∀ (acc : FilterResult) (found : Bool),
+    acc.Good →
+    (collect store t vals (acc, found)).1.Good ∧
+    (∀ k, ((collect store t vals (acc, found)).1.get k).flow =
+      (acc.get k).flow ++ vals.flatMap (fun v => nodeSel (store.getD v .empty) t k)) ∧
+    (collect store t vals (acc, found)).2 =
+      (found || vals.any (fun v => ((store.getD v .empty).getFlow t).isSome)) := by
+  induction vals with
+  | nil => intro acc found hg; simp [collect, hg]
+  | cons v vs ih =>
+    intro acc found hg
+    unfold collect
+    cases hn : (store.getD v .empty).getFlow t with
+    | none =>
+      simp only
+      obtain ⟨h1, h2, h3⟩ := ih acc found hg
+      refine ⟨h1, ?_, by simp [-List.getD_eq_getElem?_getD, h3, hn]⟩
+      intro k
+      rw [h2 k, List.flatMap_cons, getFlow_node_none hn k]
+      simp
+    | some r =>
+      simp only
+      obtain ⟨hrg, hrk⟩ := getFlow_node_some hn
+      have hg' : (acc.extend r).Good :=
+        ⟨(FlowResult.extend_good hg.1 hrg.1).2, (FlowResult.extend_good hg.2.1 hrg.2.1).2,
+         (FlowResult.extend_good hg.2.2 hrg.2.2).2⟩
+      obtain ⟨h1, h2, h3⟩ := ih (acc.extend r) true hg'
+      refine ⟨h1, ?_, by simp [-List.getD_eq_getElem?_getD, h3, hn]⟩
+      intro k
+      rw [h2 k, extend_get, (FlowResult.extend_good (FilterResult.good_get hg k) (FilterResult.good_get hrg k)).1,
+        hrk k, List.flatMap_cons, List.append_assoc]
+
+theorem any_or' {α : Type} (l : List α) (p q : α → Bool) :
+    l.any (fun a => p a || q a) = (l.any p || l.any q) := by
+  induction l with
+  | nil => rfl
+  | cons a as ih => simp only [List.any_cons, ih]; cases p a <;> cases q a <;> simp
+
+theorem nonempty_flatMap {α β : Type} (l : List α) (g : α → List β) :
+    (!(l.flatMap g).isEmpty) = l.any (fun a => !(g a).isEmpty) := by
+  induction l with
+  | nil => rfl
+  | cons a as ih =>
+    simp only [List.flatMap_cons, List.any_cons, ← ih]
+    cases g a <;> simp
+
+theorem names_eq (r : FilterResult) (k : Kind) :
+    (Answer.names ⟨b, r.user.flow.map (·.name), r.sysStart.flow.map (·.name), r.sysEnd.flow.map (·.name)⟩ k) =
+      (r.get k).flow.map (·.name) := by
+  cases k <;> rfl
+
+/-- `getFlow_char`, list form: what the model reports is, per group, the concatenation over the nodes the
+    traversal returns of the flows passing that node's qualification; `found` says whether any did.
+    No hypothesis: every tree, store and transaction. -/
+theorem observe_char (ft : FTree) (t : Txn) :
+    (∀ k, (observe ft t).names k = (selected ft t k).map (·.name)) ∧
+    (observe ft t).found = [Kind.user, Kind.sysStart, Kind.sysEnd].any (fun k => !(selected ft t k).isEmpty) := by
+  unfold observe getFlow
+  simp only
+  by_cases hv : (lookupFlow ft.tree t.parts).isEmpty = true
+  · rw [if_pos hv]
+    have : lookupFlow ft.tree t.parts = [] := by simpa using hv
+    simp only [selected, this]
+    refine ⟨fun k => by cases k <;> rfl, by simp⟩
+  · rw [if_neg hv]
+    obtain ⟨hg, hk, hf⟩ := collect_spec ft.store t (lookupFlow ft.tree t.parts) .none false
+      ⟨rfl, rfl, rfl⟩
+    generalize hc : collect ft.store t (lookupFlow ft.tree t.parts) (FilterResult.none, false) = c at hg hk hf
+    obtain ⟨flows, found⟩ := c
+    simp only at hg hk hf ⊢
+    have hsel : ∀ k, (flows.get k).flow = selected ft t k := by
+      intro k
+      rw [hk k]
+      cases k <;> simp [FilterResult.none, FilterResult.get, selected, nodeSel]
+    refine ⟨fun k => by rw [names_eq, hsel k], ?_⟩
+    rw [hf]
+    simp only [Bool.false_or]
+    -- a node is valid iff one of its groups contributes
+    have hiff : ∀ v, ((ft.store.getD v .empty).getFlow t).isSome =
+        [Kind.user, Kind.sysStart, Kind.sysEnd].any (fun k => !(nodeSel (ft.store.getD v .empty) t k).isEmpty) :=
+      fun v => getFlow_node_isSome _ t
+    simp only [hiff, selected, nodeSel, List.any_cons, List.any_nil, Bool.or_false, any_or', nonempty_flatMap]
+
+theorem mem_selected {ft : FTree} {t : Txn} {k : Kind} {f : Flow} :
+    f ∈ selected ft t k ↔ ∃ v ∈ travS ft.tree t.parts, f ∈ (ft.store.getD v .empty).group k ∧
+      flowValid (ft.store.getD v .empty) f t = true := by
+  simp [selected, lookupFlow_eq_travS, List.mem_flatMap, List.mem_filter]
+
+/-! ### the node's qualification vs the flow's own filter -/
+
+/-- the non-URL part of `applies` -/
+def filterOk (f : Flow) (t : Txn) : Bool :=
+  methodOk f t && (if t.isResp then statusOk f t else headersOk f t && queryOk f t)
+
+theorem applies_eq (f : Flow) (t : Txn) : applies f t = («matches» f.parts t.parts && filterOk f t) := by
+  unfold applies filterOk
+  rw [Bool.and_assoc]
+
+/-- The node's requirements say about `f` what `f`'s own filter says, and `t` avoids F03h / F03i for `f`. -/
+structure NodeOK (n : FNode) (f : Flow) (t : Txn) : Prop where
+  hM : f.kind = .user → n.reqMethodsEmpty = f.methods.isEmpty
+  hH : f.kind = .user → n.reqHeadersEmpty = f.headers.isEmpty
+  hQ : f.kind = .user → n.reqQueryEmpty = f.query.isEmpty
+  hS : f.kind = .user → n.reqStatusEmpty = f.statuses.isEmpty
+  sys : f.kind ≠ .user → f.methods.isEmpty = true → defaultMethods.contains t.method = true
+  qv : t.isResp = false → ∀ kv ∈ f.query, kv.2 = none → queryFind t kv.1 = none ∨ queryFind t kv.1 = some ""
+
+theorem all_congr_mem {α : Type} (l : List α) (p q : α → Bool) (h : ∀ a ∈ l, p a = q a) :
+    l.all p = l.all q := by
+  induction l with
+  | nil => rfl
+  | cons a as ih =>
+    simp only [List.all_cons]
+    rw [h a (by simp), ih (fun b hb => h b (by simp [hb]))]
+
+theorem isUser_iff (f : Flow) : f.isUser = true ↔ f.kind = .user := by simp [Flow.isUser]
+
+theorem headersOk_nil {f : Flow} {t : Txn} (h : f.headers.isEmpty = true) : headersOk f t = true := by
+  have : f.headers = [] := by simpa using h
+  simp [headersOk, this]
+
+theorem hdr_eq {n : FNode} {f : Flow} {t : Txn} (hH : f.kind = .user → n.reqHeadersEmpty = f.headers.isEmpty) :
+    isHeadersQualified n f t = (t.isResp || headersOk f t) := by
+  unfold isHeadersQualified
+  cases t.isResp with
+  | true => simp
+  | false =>
+    simp only [Bool.false_eq_true, if_false, Bool.false_or]
+    have hcheck : (f.headers.all fun kv => (f.headers.filter (fun kv' => kv'.1 == kv.1)).any
+        fun kv' => hdrMatch t kv.1 kv'.2) = headersOk f t := by
+      unfold headersOk
+      congr 1
+      funext kv
+      rw [List.any_filter]
+    rw [hcheck]
+    by_cases he : f.headers.isEmpty = true
+    · rw [headersOk_nil he]
+      split <;> simp [he]
+    · by_cases hu : f.kind = .user
+      · have : (f.isUser && n.reqHeadersEmpty) = false := by
+          rw [hH hu]; simp at he; simp [he]
+        simp [this, he]
+      · have : f.isUser = false := by
+          cases h : f.isUser with
+          | false => rfl
+          | true => exact absurd ((isUser_iff f).mp h) hu
+        simp [this, he]
+
+theorem st_eq {n : FNode} {f : Flow} {t : Txn} (hS : f.kind = .user → n.reqStatusEmpty = f.statuses.isEmpty) :
+    isStatusCodeQualified n f t = (!t.isResp || statusOk f t) := by
+  unfold isStatusCodeQualified statusOk
+  by_cases hu : f.kind = .user
+  · have hiu : f.isUser = true := (isUser_iff f).mpr hu
+    rw [hiu, hS hu]
+    cases t.isResp <;> cases f.statuses.isEmpty <;> simp
+  · have : f.isUser = false := by
+      cases h : f.isUser with
+      | false => rfl
+      | true => exact absurd ((isUser_iff f).mp h) hu
+    rw [this]
+    cases t.isResp <;> cases f.statuses.isEmpty <;> simp
+
+theorem m_eq {n : FNode} {f : Flow} {t : Txn} (hM : f.kind = .user → n.reqMethodsEmpty = f.methods.isEmpty)
+    (hsys : f.kind ≠ .user → f.methods.isEmpty = true → defaultMethods.contains t.method = true) :
+    isMethodQualified n f t = methodOk f t := by
+  unfold isMethodQualified methodOk supportedMethods
+  by_cases hu : f.kind = .user
+  · have hiu : f.isUser = true := (isUser_iff f).mpr hu
+    rw [hiu, hM hu]
+    cases he : f.methods.isEmpty <;> simp
+  · have : f.isUser = false := by
+      cases h : f.isUser with
+      | false => rfl
+      | true => exact absurd ((isUser_iff f).mp h) hu
+    rw [this]
+    cases he : f.methods.isEmpty with
+    | false => simp
+    | true =>
+      have := hsys hu he
+      simpa [defaultMethods] using this
+
+theorem q_eq {n : FNode} {f : Flow} {t : Txn} (hQ : f.kind = .user → n.reqQueryEmpty = f.query.isEmpty)
+    (hqv : t.isResp = false → ∀ kv ∈ f.query, kv.2 = none → queryFind t kv.1 = none ∨ queryFind t kv.1 = some "") :
+    isQueryParamsQualified n f t = (t.isResp || queryOk f t) := by
+  unfold isQueryParamsQualified
+  cases hr : t.isResp with
+  | true => simp
+  | false =>
+    simp only [Bool.false_eq_true, if_false, Bool.false_or]
+    by_cases hcond : (f.isUser && n.reqQueryEmpty) = true
+    · rw [if_pos hcond]
+      simp only [Bool.and_eq_true] at hcond
+      have he : f.query.isEmpty = true := by rw [← hQ ((isUser_iff f).mp hcond.1)]; exact hcond.2
+      have : f.query = [] := by simpa using he
+      simp [queryOk, this]
+    · rw [if_neg hcond]
+      unfold queryOk
+      apply all_congr_mem
+      intro kv hkv
+      cases hk2 : kv.2 with
+      | some v => cases queryFind t kv.1 <;> simp
+      | none =>
+        rcases hqv hr kv hkv hk2 with h | h <;> rw [h] <;> simp
+
+theorem flowValid_eq {n : FNode} {f : Flow} {t : Txn} (h : NodeOK n f t) : flowValid n f t = filterOk f t := by
+  unfold flowValid filterOk
+  rw [hdr_eq h.hH, st_eq h.hS, m_eq h.hM h.sys, q_eq h.hQ h.qv]
+  cases t.isResp <;> cases headersOk f t <;> cases statusOk f t <;> cases methodOk f t <;> cases queryOk f t <;> rfl
+
+/-! ### the selection under `Benign` -/
+
+theorem benign_parts {cfg : List Flow} {t : Txn} (h : Benign cfg t = true) :
+    mixedShapes cfg = false ∧ mergeConfused cfg = false ∧ cfgBoundaryMix cfg = false ∧ nonCanonical cfg = false ∧
+    oneExtra cfg t.parts = false ∧ zeroSegWild cfg t.parts = false ∧ boundaryMix cfg t.parts = false ∧
+    emptySegment t.parts = false ∧ sysDefaultMethods cfg t = false ∧ valuelessQuery cfg t = false := by
+  unfold Benign benignCfg benignTxn at h
+  simp only [Bool.and_eq_true, Bool.not_eq_true'] at h
+  obtain ⟨⟨⟨⟨a, b⟩, c⟩, d⟩, ⟨⟨⟨⟨⟨e, f⟩, g⟩, i⟩, j⟩, k⟩⟩ := h
+  exact ⟨a, b, c, d, e, f, g, i, j, k⟩
+
+theorem benign_cfg {cfg : List Flow} {t : Txn} (h : Benign cfg t = true) : benignCfg cfg = true := by
+  unfold Benign at h
+  simp only [Bool.and_eq_true] at h
+  exact h.1
+
+theorem travHyp_of {cfg : List Flow} {ft : FTree} {t : Txn} (hinv : Inv ft cfg) (hb : Benign cfg t = true) :
+    TravHyp ft.tree t.parts := by
+  obtain ⟨_, _, hbm, _, hoe, hzs, hbt, hes, _, _⟩ := benign_parts hb
+  have hflt : ∀ g ∈ cfg, flagsOK g.parts t.parts = true := by
+    intro g hg
+    have := any_false_of hbt g hg
+    simpa using this
+  refine ⟨hinv.wl, hinv.partsOK (cfgBoundaryMix_false hbm), hinv.rcoh, hinv.aligned hflt, ?_, ?_, ?_⟩
+  · simpa [emptySegment] using hes
+  · intro ⟨q, ov⟩ hm hew hne
+    obtain ⟨g, hg, hq⟩ := hinv.dom _ _ hm
+    unfold oneExtra at hoe
+    have hne' : t.parts.isEmpty = false := by simpa using hne
+    simp only [hne', Bool.not_false, Bool.true_and] at hoe
+    have := any_false_of hoe g hg
+    simp only at hew
+    rw [hq, hew] at this
+    simpa using this
+  · intro ⟨q, ov⟩ hm
+    obtain ⟨g, hg, hq⟩ := hinv.dom _ _ hm
+    have := any_false_of hzs g hg
+    rw [hq] at this
+    simpa using this
+
+theorem sameKeys_self (p : Pattern) : sameKeys p p = true := by simp [sameKeys]
+
+theorem nodeOK_of {cfg : List Flow} {ft : FTree} {t : Txn} (hinv : Inv ft cfg) (hb : Benign cfg t = true)
+    {q : List Part} {i : Nat} (hm : (q, some i) ∈ ft.tree) {k : Kind} {f : Flow}
+    (hf : f ∈ (ft.store.getD i .empty).group k) : NodeOK (ft.store.getD i .empty) f t := by
+  obtain ⟨hms, _, _, _, _, _, _, _, hsd, hvq⟩ := benign_parts hb
+  obtain ⟨hfq, hfc, hfk⟩ := hinv.node q i hm k f hf
+  obtain ⟨g0, hg0, hg0q, hreq⟩ := hinv.req q i hm
+  have hshape : f.kind = .user → shape f = nodeShape g0 := by
+    intro hu
+    have h1 := any_false_of hms f hfc
+    simp only [hu, beq_self_eq_true, Bool.true_and] at h1
+    have h2 := any_false_of h1 g0 hg0
+    rw [hfq, hg0q, sameKeys_self] at h2
+    simpa using h2
+  have hreqs : (ft.store.getD i .empty).reqMethodsEmpty = (nodeShape g0).1 ∧
+      (ft.store.getD i .empty).reqHeadersEmpty = (nodeShape g0).2.1 ∧
+      (ft.store.getD i .empty).reqQueryEmpty = (nodeShape g0).2.2.1 ∧
+      (ft.store.getD i .empty).reqStatusEmpty = (nodeShape g0).2.2.2 := by
+    unfold FNode.reqMethodsEmpty FNode.reqHeadersEmpty FNode.reqQueryEmpty FNode.reqStatusEmpty nodeShape shape
+    rw [hreq]
+    by_cases hu : g0.kind = .user <;> simp [hu]
+  refine ⟨?_, ?_, ?_, ?_, ?_, ?_⟩
+  · intro hu; rw [hreqs.1, ← hshape hu]; rfl
+  · intro hu; rw [hreqs.2.1, ← hshape hu]; rfl
+  · intro hu; rw [hreqs.2.2.1, ← hshape hu]; rfl
+  · intro hu; rw [hreqs.2.2.2, ← hshape hu]; rfl
+  · intro hnu hme
+    unfold sysDefaultMethods at hsd
+    cases hc : defaultMethods.contains t.method with
+    | true => rfl
+    | false =>
+      exfalso
+      simp only [hc, Bool.not_false, Bool.true_and] at hsd
+      have := any_false_of hsd f hfc
+      simp [hme, hnu] at this
+  · intro hr kv hkv hk2
+    unfold valuelessQuery at hvq
+    simp only [hr, Bool.not_false, Bool.true_and] at hvq
+    have h1 := any_false_of hvq f hfc
+    have h2 := any_false_of h1 kv hkv
+    simp only [hk2, Option.isNone_none, Bool.true_and] at h2
+    cases hq : queryFind t kv.1 with
+    | none => exact .inl rfl
+    | some x =>
+      right
+      rw [hq] at h2
+      simpa using h2
+
+/-- `getFlow_char` under `Benign`: a loaded configuration selects exactly the flows whose own filter
+    accepts the transaction and that no literal sibling shadows. -/
+theorem selected_iff {cfg : List Flow} {ft : FTree} {t : Txn} (hinv : Inv ft cfg) (hb : Benign cfg t = true)
+    (ht : t.parts ≠ []) (k : Kind) (f : Flow) :
+    f ∈ selected ft t k ↔ f ∈ cfg ∧ f.kind = k ∧ applies f t = true ∧ shadowed cfg f t = false := by
+  obtain ⟨u, us, hus⟩ : ∃ u us, t.parts = u :: us := by
+    cases h : t.parts with
+    | nil => exact absurd h ht
+    | cons u us => exact ⟨u, us, rfl⟩
+  have hth := travHyp_of hinv hb
+  have hbt := (benign_parts hb).2.2.2.2.2.2.1
+  rw [mem_selected, applies_eq]
+  constructor
+  · rintro ⟨v, hv, hfg, hval⟩
+    rw [hus] at hv hth
+    obtain ⟨q, hq, hmq, hsh⟩ := (mem_travS_iff hth v).mp hv
+    obtain ⟨hfq, hfc, hfk⟩ := hinv.node q v hq k f hfg
+    have hfl : flagsOK f.parts t.parts = true := by
+      have := any_false_of hbt f hfc
+      simpa using this
+    refine ⟨hfc, hfk, ?_, ?_⟩
+    · rw [← flowValid_eq (nodeOK_of hinv hb hq hfg), hval, Bool.and_true]
+      rw [hus, hfq]
+      rw [hus, hfq] at hfl
+      exact matches_of_lax _ _ hmq hfl
+    · unfold shadowed
+      rw [List.any_eq_false]
+      intro g hg
+      obtain ⟨i, hi, _⟩ := hinv.cov g hg
+      have := hsh _ hi
+      rw [hus, hfq]
+      simpa using this
+  · rintro ⟨hfc, hfk, hap, hsh⟩
+    simp only [Bool.and_eq_true] at hap
+    obtain ⟨i, hi, hfg⟩ := hinv.cov f hfc
+    rw [hfk] at hfg
+    refine ⟨i, ?_, hfg, ?_⟩
+    · rw [hus]
+      rw [hus] at hth
+      apply (mem_travS_iff hth i).mpr
+      refine ⟨f.parts, hi, ?_, ?_⟩
+      · rw [← hus]; exact lax_of_matches _ _ hap.1
+      · intro ⟨q, ov⟩ he
+        obtain ⟨g, hg, hgq⟩ := hinv.dom _ _ he
+        unfold shadowed at hsh
+        have := any_false_of hsh g hg
+        rw [← hus, ← hgq]
+        exact this
+    · rw [flowValid_eq (nodeOK_of hinv hb hi hfg)]
+      exact hap.2
+
+/-! ### from the characterisation to the Spec predicates -/
+
+theorem selOk_of {cfg : List Flow} {t : Txn} {a : Answer}
+    (h : ∀ k n, n ∈ a.names k → ∃ f ∈ cfg, f.name = n ∧ f.kind = k ∧ applies f t = true) :
+    selOk cfg t a = true := by
+  unfold selOk
+  rw [List.all_eq_true]
+  intro k _
+  rw [List.all_eq_true]
+  intro n hn
+  rw [List.any_eq_true]
+  obtain ⟨f, hf, h1, h2, h3⟩ := h k n hn
+  exact ⟨f, hf, by simp [h1, h2, h3]⟩
+
+theorem compOk_of {cfg : List Flow} {t : Txn} {a : Answer}
+    (h : ∀ f ∈ cfg, applies f t = true → shadowed cfg f t = false → f.name ∈ a.names f.kind) :
+    compOk cfg t a = true := by
+  unfold compOk
+  rw [List.all_eq_true]
+  intro f hf
+  cases ha : applies f t with
+  | false => simp
+  | true =>
+    cases hs : shadowed cfg f t with
+    | true => simp
+    | false => simpa using h f hf ha hs
+
+theorem nOk_observe (ft : FTree) (t : Txn) : nOk (observe ft t) = true := by
+  obtain ⟨hn, hf⟩ := observe_char ft t
+  unfold nOk
+  rw [hf]
+  have hu := hn .user
+  have hs := hn .sysStart
+  have he := hn .sysEnd
+  simp only [Answer.names] at hu hs he
+  rw [hu, hs, he]
+  simp only [List.any_cons, List.any_nil, Bool.or_false, List.isEmpty_map]
+  cases (selected ft t .user).isEmpty <;> cases (selected ft t .sysStart).isEmpty <;>
+    cases (selected ft t .sysEnd).isEmpty <;> rfl
+
+theorem executed_nil {ft : FTree} {t : Txn} (h : (observe ft t).found = false) : executed ft t = [] := by
+  unfold observe at h
+  unfold executed
+  rcases hg : getFlow ft t with ⟨r, b⟩
+  rw [hg] at h
+  cases r <;> cases b <;> simp_all
+
+theorem mem_names_observe {ft : FTree} {t : Txn} {k : Kind} {n : String} :
+    n ∈ (observe ft t).names k ↔ ∃ f ∈ selected ft t k, f.name = n := by
+  rw [(observe_char ft t).1 k, List.mem_map]
+
+theorem sameSel_of {a b : Answer} (h : ∀ k n, n ∈ a.names k ↔ n ∈ b.names k) : sameSel a b = true := by
+  unfold sameSel
+  rw [List.all_eq_true]
+  intro k _
+  simp only [Bool.and_eq_true, List.all_eq_true, List.contains_iff_mem]
+  exact ⟨fun n hn => (h k n).mp hn, fun n hn => (h k n).mpr hn⟩
+
+theorem shadowed_perm {cfg cfg' : List Flow} (hp : cfg.Perm cfg') (f : Flow) (t : Txn) :
+    shadowed cfg f t = shadowed cfg' f t := by
+  unfold shadowed
+  rw [Bool.eq_iff_iff, List.any_eq_true, List.any_eq_true]
+  exact ⟨fun ⟨g, hg, h⟩ => ⟨g, hp.mem_iff.mp hg, h⟩, fun ⟨g, hg, h⟩ => ⟨g, hp.mem_iff.mpr hg, h⟩⟩
+
+/-- The tree the driver builds while skipping refused flows is the tree built from the accepted ones. -/
+theorem loadSkip_build (fs : List Flow) : ∀ (ft : FTree),
+    buildFrom ft (((fs.zip (loadSkip ft fs).2).filter (fun p => p.2.isNone)).map (·.1)) = .ok (loadSkip ft fs).1 := by
+  induction fs with
+  | nil => intro ft; simp [loadSkip, buildFrom]
+  | cons f rest ih =>
+    intro ft
+    unfold loadSkip
+    cases ha : addFlow ft f with
+    | error e =>
+      simp only
+      have := ih ft
+      simpa [List.zip_cons_cons] using this
+    | ok ft1 =>
+      simp only
+      have := ih ft1
+      simp only [List.zip_cons_cons, Option.isNone_none, List.filter_cons_of_pos, List.map_cons, buildFrom, ha]
+      exact this
+
 end LunarVerif.C03
